@@ -820,6 +820,39 @@ Qed.
 (* what one call hands to the spectators: the next n frames after those already sent, consecutive,
    each with the inputs held for it (n = 0 for every call other than a successful advance_frame);
    every frame sent is one for which every player's input is already held *)
+Definition grows_gs (gs gs' : list ghost) : Prop :=
+  length gs' = length gs /\
+  forall h g', nth_error gs' h = Some g' -> exists g ext, nth_error gs h = Some g /\ fst g' = fst g ++ ext.
+Lemma grows_gs_refl : forall gs, grows_gs gs gs.
+Proof. intros gs. split; [reflexivity|]. intros h g' H. exists g', []. rewrite app_nil_r. split; [exact H|reflexivity]. Qed.
+Lemma grows_gs_trans : forall a b c, grows_gs a b -> grows_gs b c -> grows_gs a c.
+Proof.
+  intros a b c (L1 & H1) (L2 & H2). split; [congruence|]. intros h g' H.
+  destruct (H2 h g' H) as (g1 & e1 & A1 & B1). destruct (H1 h g1 A1) as (g0 & e0 & A0 & B0).
+  exists g0, (e0 ++ e1). split; [exact A0|]. rewrite B1, B0, app_assoc. reflexivity.
+Qed.
+
+Lemma held_at_stable : forall gs gs' f, grows_gs gs gs' -> 0 <= f ->
+  Forall (fun g : ghost => f < hlen (fst g)) gs -> held_at gs' f = held_at gs f.
+Proof.
+  intros gs gs' f (Hl & Hg) Hf Hb. unfold held_at.
+  apply (nth_ext _ _ (mkpi 0 0) (mkpi 0 0)); [rewrite !map_length; exact Hl|].
+  intros n Hn. rewrite map_length in Hn.
+  destruct (nth_error gs' n) as [g'|] eqn:E'; [|apply nth_error_None in E'; lia].
+  destruct (Hg n g' E') as (g0 & ext & E0 & Ex).
+  rewrite (nth_error_nth _ _ _ (map_nth_error _ _ _ E')), (nth_error_nth _ _ _ (map_nth_error _ _ _ E0)).
+  f_equal. rewrite Ex. apply hval_app_old. rewrite Forall_forall in Hb. pose proof (Hb g0 (nth_error_In _ _ E0)). lia.
+Qed.
+
+Lemma hist_step_grows_gs : forall d pend t gs gs', hist_step d pend t gs gs' -> length gs' = length gs -> grows_gs gs gs'.
+Proof.
+  intros d pend t gs gs' H Hl. split; [exact Hl|]. intros h g' A. destruct (H h g' A) as (g & B & C). exists g.
+  destruct C as [->|(_ & pi & k & _ & -> & _)]; [exists []; rewrite app_nil_r; split; [exact B|reflexivity]|].
+  eexists. split; [exact B|reflexivity].
+Qed.
+
+(* gs = the histories held when the call returns (the broadcast of a lockstep call includes the frame whose
+   local input that same call registered) *)
 Definition spec_step (p : p2p) (gs : list ghost) (o : pout) (p' : p2p) : Prop :=
   ps_spectators p' = ps_spectators p /\
   exists n : nat,
@@ -846,15 +879,25 @@ Proof.
   pose proof (cf_le_all _ _ _ (qs_last _ _ _ _ HQS) B) as X. eapply Forall_impl; [|exact X]. cbv beta. intros g Hg. lia.
 Qed.
 
-Lemma spec_sent_step : forall p gs cf o p', spec_ok p gs -> Forall (fun g : ghost => cf + 1 <= hlen (fst g)) gs ->
-  ps_spectators p' = ps_spectators p ->
-  o_spec_sends o = spec_sent p gs cf -> ps_next_spec p' = next_spec_after p cf -> spec_step p gs o p'.
+Lemma spec_sent_step : forall p gs gs' cf o p', spec_ok p gs -> Forall (fun g : ghost => cf + 1 <= hlen (fst g)) gs ->
+  grows_gs gs gs' -> ps_spectators p' = ps_spectators p ->
+  o_spec_sends o = spec_sent p gs cf -> ps_next_spec p' = next_spec_after p cf -> spec_step p gs' o p'.
 Proof.
-  intros p gs cf o p' Hs Hcf A B C. split; [exact A|]. exists (Z.to_nat (cf - ps_next_spec p + 1)).
+  intros p gs gs' cf o p' Hs Hcf Hgr A B C. split; [exact A|]. exists (Z.to_nat (cf - ps_next_spec p + 1)).
   unfold spec_sent, next_spec_after in *. rewrite B, C.
-  split; [destruct (ps_spectators p); reflexivity|]. split; [destruct (ps_spectators p); [reflexivity|lia]|].
-  intros Hne. destruct (Hs Hne) as (_ & _ & X). apply Forall_forall. intros g Hg. rewrite Forall_forall in X, Hcf.
-  pose proof (X g Hg). pose proof (Hcf g Hg). lia.
+  assert (Hbound : ps_spectators p <> [] -> Forall (fun g : ghost => ps_next_spec p + Z.of_nat (Z.to_nat (cf - ps_next_spec p + 1)) <= hlen (fst g)) gs).
+  { intros Hne. destruct (Hs Hne) as (_ & _ & X). apply Forall_forall. intros g Hg. rewrite Forall_forall in X, Hcf.
+    pose proof (X g Hg). pose proof (Hcf g Hg). lia. }
+  split.
+  - destruct (ps_spectators p) as [|b bs] eqn:Esp; [reflexivity|]. destruct (existsb _ _); [|reflexivity].
+    apply map_ext_in. intros f Hf. apply zrange_in in Hf. f_equal. symmetry.
+    destruct (Hs ltac:(rewrite Esp; discriminate)) as (S1 & _).
+    apply held_at_stable; [exact Hgr|lia|].
+    eapply Forall_impl; [|exact (Hbound ltac:(discriminate))]. cbv beta. intros g0 Hg0. lia.
+  - split; [destruct (ps_spectators p); [reflexivity|lia]|].
+    intros Hne. specialize (Hbound Hne). destruct Hgr as (Hl & Hg). apply Forall_forall. intros g' Hg'.
+    apply In_nth_error in Hg'. destruct Hg' as (h & Hh). destruct (Hg h g' Hh) as (g0 & ext & E0 & Ex).
+    rewrite Forall_forall in Hbound. pose proof (Hbound g0 (nth_error_In _ _ E0)). rewrite Ex. unfold hlen in *. rewrite app_length. lia.
 Qed.
 
 (* the cells invariant of dense saving in rollback mode (the window is at least one frame) *)
@@ -865,7 +908,7 @@ Lemma advance_timeline : forall p gs g w d p' o r G,
   QS w d p gs -> JI1 w p g -> Forall (fun c => cs_last c < I32MAX) (ps_status p) ->
   Forall (fun c => cs_last c + 1 < I32MAX) (ps_status p) -> TI p gs G ->
   exists gs', QS w d p' gs' /\ TI p' gs' (replay_hist G (o_requests o)) /\
-    hist_step d (ps_pending p) (local_handles p) gs gs' /\ ps_kinds p' = ps_kinds p /\ spec_step p gs o p' /\
+    hist_step d (ps_pending p) (local_handles p) gs gs' /\ ps_kinds p' = ps_kinds p /\ spec_step p gs' o p' /\
     Forall (truthful_lt (s_current (ps_sync p')) gs') (adv_frames G (o_requests o)).
 Proof.
   intros p gs g w d p' o r G E HQS (Hw1p & HJI) Hbnd _ HTI.
@@ -909,8 +952,10 @@ Proof.
   { intros h Hin. rewrite Hpe1. apply Hpend. rewrite <- Hlh1. exact Hin. }
   exists gs'. split; [exact HQS'|]. split; [rewrite Ho, replay_hist_app, Hrep1; exact HTI'|]. split; [rewrite <- Hpe1, <- Hlh1; exact Hh'|]. split; [congruence|].
   split; [|rewrite Ho, adv_frames_app, Hadv1, Hrep1; exact HTR'].
-  apply (spec_sent_step p gs cf); [exact Hsok| |congruence| |].
+  apply (spec_sent_step p gs gs' cf); [exact Hsok| | |congruence| |].
   - apply (cf_bound _ w d p gs cf HQS). unfold confirmed_frame in *. rewrite <- Hst1. exact Ecf.
+  - apply (hist_step_grows_gs _ _ _ _ _ Hh').
+    destruct (qs_n _ _ _ _ HQS') as (_ & _ & A & _). destruct (qs_n _ _ _ _ HQS) as (_ & _ & B & _). congruence.
   - rewrite Hsent, Hos1. unfold spec_sent. rewrite Hss1, Hns1. reflexivity.
   - rewrite Hns'. unfold next_spec_after. rewrite Hss1, Hns1. reflexivity.
 Qed.
@@ -1028,7 +1073,7 @@ Hypothesis CI_adv : forall p gs g w d p' o r G,
   QSg sp w d p gs -> CI w p g -> Forall (fun c => cs_last c < I32MAX) (ps_status p) ->
   Forall (fun c => cs_last c + 1 < I32MAX) (ps_status p) -> TI p gs G ->
   exists gs', QSg sp w d p' gs' /\ TI p' gs' (replay_hist G (o_requests o)) /\
-    hist_step d (ps_pending p) (local_handles p) gs gs' /\ ps_kinds p' = ps_kinds p /\ spec_step p gs o p' /\
+    hist_step d (ps_pending p) (local_handles p) gs gs' /\ ps_kinds p' = ps_kinds p /\ spec_step p gs' o p' /\
     Forall (truthful_lt (s_current (ps_sync p')) gs') (adv_frames G (o_requests o)).
 Hypothesis CI_frame : forall w p g, CI w p g -> gframe g = s_current (ps_sync p).
 Hypothesis CI_start : forall n w d kinds eps nspec, 1 <= w -> CI w (session_start n w sp d kinds eps nspec) (game0 w).
@@ -1052,7 +1097,7 @@ Lemma step_timeline_g : forall p gs g w d o,
   QSg sp w d p gs -> CI w p g -> TI p gs (g_hist g) -> op_ok p o = true ->
   exists s gs' g', sstep predict p o = Ok s /\ QSg sp w d (sr_state s) gs' /\
     exec w g (o_requests (sr_out s)) = Some g' /\ CI w (sr_state s) g' /\ TI (sr_state s) gs' (g_hist g') /\
-    op_hist d p o gs gs' /\ ps_kinds (sr_state s) = ps_kinds p /\ spec_step p gs (sr_out s) (sr_state s) /\
+    op_hist d p o gs gs' /\ ps_kinds (sr_state s) = ps_kinds p /\ spec_step p gs' (sr_out s) (sr_state s) /\
     Forall (truthful_lt (s_current (ps_sync (sr_state s))) gs') (adv_frames (g_hist g) (o_requests (sr_out s))).
 Proof.
   clear CI_start.
@@ -1078,7 +1123,9 @@ Proof.
     split; [reflexivity|]. split; [exact HQ'|]. split; [reflexivity|].
     split; [exact HJ0|].
     split; [|split; [cbn [op_hist]; exists hist, low; split; [exact Eg|reflexivity]|]].
-    2:{ pose proof (qs_spec _ _ _ _ HQS) as Hsk. clear - E Hsk. unfold ev_input in E. destruct (negb _); [discriminate|]. destruct (cs_disc _); [injection E as <-; split; [reflexivity|split; [apply spec_step_none; [exact Hsk|reflexivity..]|constructor]]|].
+    2:{ assert (Hsk : spec_ok p (updz gs (Z.to_nat pl) (hist ++ [v], low))).
+        { eapply spec_ok_grow; [exact (qs_spec _ _ _ _ HQS)|reflexivity|reflexivity|reflexivity|]. eapply grow_updz; [exact Eg|rewrite hlen_app; lia]. }
+        clear - E Hsk. unfold ev_input in E. destruct (negb _); [discriminate|]. destruct (cs_disc _); [injection E as <-; split; [reflexivity|split; [apply spec_step_none; [exact Hsk|reflexivity..]|constructor]]|].
         destruct (negb _); [discriminate|]. destruct (add_remote_input _ _ _ _); cbn [res_bind] in E; try discriminate. injection E as <-.
         split; [reflexivity|split; [apply spec_step_none; [exact Hsk|reflexivity..]|constructor]]. }
     destruct HTI as (HG & HGI & HPN). unfold TI. rewrite Hc', Hqs'.
@@ -1198,19 +1245,6 @@ Qed.
 
 (* ---------- the host's broadcast to its spectators over a whole run (C06, host half) ---------- *)
 (* histories only grow, by appending *)
-Definition grows_gs (gs gs' : list ghost) : Prop :=
-  length gs' = length gs /\
-  forall h g', nth_error gs' h = Some g' -> exists g ext, nth_error gs h = Some g /\ fst g' = fst g ++ ext.
-Lemma grows_gs_refl : forall gs, grows_gs gs gs.
-Proof. clear CI_start. intros gs. split; [reflexivity|]. intros h g' H. exists g', []. rewrite app_nil_r. split; [exact H|reflexivity]. Qed.
-Lemma grows_gs_trans : forall a b c, grows_gs a b -> grows_gs b c -> grows_gs a c.
-Proof.
-  clear CI_start.
-  intros a b c (L1 & H1) (L2 & H2). split; [congruence|]. intros h g' H.
-  destruct (H2 h g' H) as (g1 & e1 & A1 & B1). destruct (H1 h g1 A1) as (g0 & e0 & A0 & B0).
-  exists g0, (e0 ++ e1). split; [exact A0|]. rewrite B1, B0, app_assoc. reflexivity.
-Qed.
-
 Lemma op_hist_grows_g : forall w d p o gs gs' p', QSg sp w d p gs -> QSg sp w d p' gs' -> ps_nplayers p' = ps_nplayers p ->
   op_hist d p o gs gs' -> grows_gs gs gs'.
 Proof.
@@ -1227,19 +1261,6 @@ Proof.
   - split; [exact Hlen|]. intros h g' H. destruct (Hop h g' H) as (g0 & A & [B|(_ & pi & k & _ & B & _)]).
     + exists g0, []. rewrite app_nil_r. split; [exact A|exact B].
     + exists g0, (repeat 0 k ++ [pi_val pi]). split; [exact A|exact B].
-Qed.
-
-Lemma held_at_stable : forall gs gs' f, grows_gs gs gs' -> 0 <= f ->
-  Forall (fun g : ghost => f < hlen (fst g)) gs -> held_at gs' f = held_at gs f.
-Proof.
-  clear CI_start.
-  intros gs gs' f (Hl & Hg) Hf Hb. unfold held_at.
-  apply (nth_ext _ _ (mkpi 0 0) (mkpi 0 0)); [rewrite !map_length; exact Hl|].
-  intros n Hn. rewrite map_length in Hn.
-  destruct (nth_error gs' n) as [g'|] eqn:E'; [|apply nth_error_None in E'; lia].
-  destruct (Hg n g' E') as (g0 & ext & E0 & Ex).
-  rewrite (nth_error_nth _ _ _ (map_nth_error _ _ _ E')), (nth_error_nth _ _ _ (map_nth_error _ _ _ E0)).
-  f_equal. rewrite Ex. apply hval_app_old. rewrite Forall_forall in Hb. pose proof (Hb g0 (nth_error_In _ _ E0)). lia.
 Qed.
 
 Lemma zrange_app : forall n m a, zrange_from a (n + m) = zrange_from a n ++ zrange_from (a + Z.of_nat n) m.
@@ -1292,7 +1313,7 @@ Proof.
       replace (Z.to_nat (ps_next_spec p' - ps_next_spec p)) with (n + Z.to_nat (ps_next_spec p' - ps_next_spec (sr_state s)))%nat by lia.
       rewrite zrange_app, map_app, Hns. f_equal.
       apply map_ext_in. intros f Hf. apply zrange_in in Hf. f_equal. symmetry.
-      apply held_at_stable; [eapply grows_gs_trans; eassumption| |].
+      apply held_at_stable; [exact Hg'| |].
       * destruct (qs_spec _ _ _ _ HQS ltac:(rewrite Esp; discriminate)) as (A & _). lia.
       * eapply Forall_impl; [|exact Hbound]. cbv beta. intros g0 Hg0. lia.
 Qed.
